@@ -33,5 +33,5 @@ def run(chk):
         'ids: domain (INT64_MIN, INT64_MAX]; version/uid/changeset: [0, 2^32-1] with the documented "-1" -> 0']
     return chk.finish('exploration',
                       'round trips parse(format(x)) for int32 coordinates and uint32 timestamps (all 2^32 in thorough, random-offset stride 4099 + complete boundary blocks in quick); every string over the 17-symbol alphabet {0-9 . - + e E space x} up to length 5 (quick) / 7 (thorough) through set_lon/set_lat and the *_partial variants against an exact decimal reference; every exponent -99999..99999 with 11 mantissas; grammar-directed long strings; timestamp field sweeps and corruptions; integer parsers at every type boundary with prefixes/suffixes. distinct = enumerated values/strings (distinct by construction) + hashes of random cases',
-                      required_counters=['coord_roundtrips', 'ts_roundtrips', 'coord_enum_strings', 'coord_accepted', 'coord_rejected', 'coord_ties', 'ts_must_accept', 'ts_must_reject', 'int_accepted', 'int_rejected', 'int_roundtrips'],
+                      required_counters=['coord_roundtrips', 'ts_roundtrips', 'coord_enum_strings', 'coord_accepted', 'coord_rejected', 'coord_ties', 'ts_must_accept', 'ts_strict_must_accept', 'ts_strict_must_reject', 'ts_must_reject', 'int_accepted', 'int_rejected', 'int_roundtrips'],
                       extra=dict(exhaustive=T))
